@@ -76,7 +76,7 @@ let sem_simplify_ht (e : Sexp.t) : Sexp.t =
       L [ A "cex"; L [ A "free-variables-of-result"; of_list of_var fvg ]; L [ A "free-variables-of-input"; of_list of_var fvf ] ]
     else begin
       let st = Semlib.rng_of (Semlib.hash_sexp e) in
-      let budget = 4000. in
+      let budget = 20000. in
       let cost w = eval_cost w f +. eval_cost w g in
       let w =
         let rec pick = function
@@ -89,13 +89,13 @@ let sem_simplify_ht (e : Sexp.t) : Sexp.t =
       let envs = if fvf = [] && function_constants f = [] then 1 else 3 in
       (* 3^n (H,T) pairs: choose n so that the whole case stays affordable *)
       let n_atoms =
-        let rec pick n = if n <= 1 then 1 else if (3. ** float_of_int n) *. float_of_int envs *. c <= 3.0e6 then n else pick (n - 1) in
+        let rec pick n = if n <= 1 then 1 else if (3. ** float_of_int n) *. float_of_int envs *. c <= 1.0e7 then n else pick (n - 1) in
         pick 5 in
       let atoms = Semlib.ground_atoms st (predicates f) (Semlib.take 4 (Semlib.shuffle st (Semlib.general_values w))) n_atoms in
       let fcs = function_constants f in
       let count = ref 0 in
       let result = ref None in
-      let too_costly = c > 2.0e5 in
+      let too_costly = c > 1.0e6 in
       let try_pair h t =
         if !result = None then
           for _ = 1 to envs do
@@ -135,7 +135,12 @@ let sem_rule_ht (e : Sexp.t) : Sexp.t =
   | L [ f; g ] -> sem_simplify_ht (L [ L [ A "shallow"; f ]; g ])
   | _ -> bad "sem_rule_ht: %s" (to_string e)
 
+let profile (e : Sexp.t) : Sexp.t =
+  let f = formula e in
+  L (A "fired" :: List.map (fun (_, r) -> of_boolv (M.Apply.apply r f <> f)) rules)
+
 let () =
+  Ops.register "si_profile" profile;
   List.iter (fun (n, r) -> Ops.register ("si_" ^ n) (fun e -> of_formula (r (formula e)))) rules;
   Ops.register "simplify_int" (simplify_op M.SimplIntuit.simplify_int);
   Ops.register "simplify_ht" (simplify_op M.SimplIntuit.simplify_ht);
